@@ -8,6 +8,9 @@ import (
 	"sync/atomic"
 	"time"
 
+	"github.com/boz/kcache"
+	metav1 "k8s.io/apimachinery/pkg/apis/meta/v1"
+
 	"verifharness/kit"
 )
 
@@ -476,9 +479,158 @@ func e12PointCase(seed uint64, tr int, mech string, k, K int, ctxTrig bool) Case
 	}}
 }
 
+
+// e12OverrunCase: the cascade when a buffer has overrun.  Variant "catch-up": a
+// consumer below a clone lags until its buffer overruns and drains everything
+// while the overrun is being handled; then the root stops.  Variant "refilter":
+// a raw filtered subscription with an idle reader is refiltered from
+// reject-all to accept-all over 150 objects (more events than its buffer
+// holds); then it is closed, or the root stops.  In every case each node's
+// Done() closes and its Events() channel is closed behind what was buffered.
+func e12OverrunCase(seed uint64, n int, variant string) Case {
+	id := fmt.Sprintf("E12/overrun-then-close/%s/%d/%d", variant, seed, n)
+	return Case{ID: id, Desc: map[string]interface{}{"seed": seed, "n": n, "variant": variant}, Bubble: true, Run: func(r *Res) {
+		rng := kit.NewRng(kit.Mix(seed, uint64(n)+1280))
+		hold := []time.Duration{100 * time.Microsecond, 300 * time.Microsecond, 800 * time.Microsecond}[n%3]
+		core := kit.NewCore(&kit.Plan{Seed: rng.U64(), PYield: 100, PSleep: 10, MaxSleep: 40 * time.Microsecond,
+			Targets: map[string]time.Duration{"overrun": hold, "buffer full": hold}})
+		g := newRootRig(core, nil)
+		u := smallUniverse()
+		closeSelf := n%2 == 1
+		var watch []<-chan struct{}
+		var evch []<-chan kcache.Event
+		var names []string
+		add := func(name string, done <-chan struct{}, ev <-chan kcache.Event) {
+			names = append(names, name)
+			watch = append(watch, done)
+			evch = append(evch, ev)
+		}
+		var victim func()
+		switch variant {
+		case "catch-up":
+			g.root.MakeReady()
+			cl, err := g.root.Publisher().Clone()
+			if err != nil {
+				r.V("C11", "tree-build-error", "%v", err)
+				return
+			}
+			add("clone", cl.Done(), nil)
+			h, _ := cl.Subscribe()
+			go func() {
+				for range h.Events() {
+				}
+			}()
+			add("healthy subscriber of the clone", h.Done(), nil)
+			lag, _ := cl.Subscribe()
+			add("lagging subscriber of the clone", lag.Done(), nil)
+			stop := make(chan struct{})
+			lagDelay := time.Duration(20+rng.Intn(int(hold/time.Microsecond))) * time.Microsecond
+			go func() {
+				ch := lag.Events()
+				for {
+					select {
+					case <-stop:
+						return
+					case <-time.After(10 * time.Microsecond):
+					}
+					if len(ch) < cap(ch) {
+						continue
+					}
+					time.Sleep(lagDelay)
+					for len(ch) > 0 {
+						<-ch
+					}
+				}
+			}()
+			for i := 0; i < 2*kcache.EventBufsiz+30; i++ {
+				done := make(chan struct{})
+				go func() { g.mutate(rng, u); close(done) }()
+				if !waitCh(done, 50*time.Millisecond) {
+					break // the fan-out is wedged: the cascade below is what this case judges
+				}
+				if i%20 == 19 {
+					g.barrier()
+				}
+			}
+			close(stop) // (the poller must not run through the long virtual waits below)
+			victim = func() { lag.Close() }
+		case "refilter":
+			var objs []metav1.Object
+			for i := 0; i < 150; i++ {
+				objs = append(objs, kit.Pod("n0", fmt.Sprintf("o%03d", i), strconv.Itoa(i+1), map[string]string{"l": "x"}))
+			}
+			g.root.Cache().Sync(objs)
+			g.root.MakeReady()
+			fs, err := g.root.Publisher().SubscribeWithFilter(kit.TAll().Build())
+			if err != nil {
+				r.V("C11", "tree-build-error", "%v", err)
+				return
+			}
+			add("filtered subscription with an idle reader", fs.Done(), fs.Events())
+			sib, _ := g.root.Publisher().Subscribe()
+			go func() {
+				for range sib.Events() {
+				}
+			}()
+			add("sibling subscriber", sib.Done(), nil)
+			g.barrier()
+			rdone := make(chan struct{})
+			go func() { fs.Refilter(kit.TNull().Build()); close(rdone) }()
+			waitCh(rdone, time.Second) // may legitimately take as long as it likes, we only give it time
+			g.barrier()
+			victim = func() { fs.Close() }
+		}
+		g.barrier()
+		if closeSelf {
+			go victim()
+			if !waitCh(watch[len(watch)-1-b2i(variant == "refilter")], virtBound) {
+				r.V("C11", "descendant-not-closed", "%s: the node with the overrun buffer was closed by its owner: its Done() is not closed %v later\n%s", variant, virtBound, kit.CensusText(kit.Census(), 10))
+				g.cancel()
+				return
+			}
+			r.Add("subtree-nodes-checked", 1)
+		}
+		g.root.Stop()
+		for i, d := range watch {
+			if !waitCh(d, virtBound) {
+				r.V("C11", "descendant-not-closed", "%s: the root was stopped after a buffer had overrun: %s is not done %v later\n%s", variant, names[i], virtBound, kit.CensusText(kit.Census(), 10))
+				g.cancel()
+				return
+			}
+			r.Add("subtree-nodes-checked", 1)
+			if evch[i] != nil {
+				closed := make(chan struct{})
+				go func(ch <-chan kcache.Event) {
+					for range ch {
+					}
+					close(closed)
+				}(evch[i])
+				if !waitCh(closed, virtBound) {
+					r.V("C11", "events-not-closed", "%s: %s is done but its Events() channel is never closed behind the buffered events", variant, names[i])
+					g.cancel()
+					return
+				}
+			}
+		}
+		r.Add("overrun-then-close-cases", 1)
+		g.stop(r, "C12")
+		r.Key(id)
+	}}
+}
+
+func b2i(b bool) int {
+	if b {
+		return 1
+	}
+	return 0
+}
+
 func init() {
 	register("E12", func(tier string, seed uint64) []Case {
 		var cases []Case
+		for i := 0; i < tierPick(tier, 12, 600); i++ {
+			cases = append(cases, e12OverrunCase(seed, i, []string{"catch-up", "refilter"}[i/2%2]))
+		}
 		for tr := 0; tr < tierPick(tier, 4, 60); tr++ {
 			K := tierPick(tier, 20, 60)
 			for k := 0; k < K; k++ {
